@@ -113,13 +113,16 @@ def gen_chart(rng, game, keys=None, n=None, style=None, n_bpm=None, empty_p=0.12
                           preview_time=rng.choice([-1, 0, 12345, 60000]), circle_size=float(keys),
                           tags=rng.choice([[], ["a", "b"], ["tag"], ["東方\u3000Project", "x"], ["no\u00a0break"]]), source=rng.choice(ASCII_TEXTS))
     elif game == "qua":
-        ch["hit_x"] = [[rng.choice([[], [], ["a"], ["a", "b"]])] for _ in hits]
-        ch["hold_x"] = [[rng.choice([[], [], ["k"]])] for _ in holds]
+        # key sounds as the format has them (a list of {Sample, Volume} records; 100 is the format's default volume) or as plain labels
+        ks = [[], [], ["a"], ["a", "b"], [{"Sample": 1, "Volume": 100}], [{"Sample": 2, "Volume": 50}, {"Sample": 3, "Volume": 100}]]
+        ch["hit_x"] = [[[dict(d) if isinstance(d, dict) else d for d in rng.choice(ks)]] for _ in hits]
+        ch["hold_x"] = [[[dict(d) if isinstance(d, dict) else d for d in rng.choice(ks[:2] + [["k"]] + ks[4:])]] for _ in holds]
         ch["meta"] = dict(title=rng.choice(TEXTS), artist=rng.choice(TEXTS), creator=rng.choice(ASCII_TEXTS),
                           difficulty_name=rng.choice(ASCII_TEXTS), audio_file=rng.choice(["audio.mp3", "a b.ogg"]),
                           background_file=rng.choice(["bg.png", ""]), song_preview_time=rng.choice([0, 1234]),
                           mode={4: "Keys4", 7: "Keys7", 8: "Keys8"}.get(keys, "Keys4"), tags=rng.choice([[], ["x", "y"]]),
-                          source=rng.choice(ASCII_TEXTS), description=rng.choice(ASCII_TEXTS))
+                          source=rng.choice(ASCII_TEXTS), description=rng.choice(ASCII_TEXTS),
+                          initial_scroll_velocity=rng.choice(["", "", 1.0, 0.5, 2.0]))  # a header field: not a scroll-velocity point
     elif game == "bms":
         ids = [b"01", b"02", b"0A", b"ZY", b"1F"]
         ch["hit_x"] = [[rng.choice([b"", b"", b"hit.wav", b"k.ogg"])] for _ in hits]
